@@ -214,7 +214,7 @@ def main(tier: str) -> int:
     for labels in (("b", "a"), (7, 3)):
         Xg = np.array([[float(i), float(j)] for i in range(-2, 3) for j in range(-2, 3)])
         yg = np.array([labels[0] if a - b > 0 else labels[1] for a, b in Xg], dtype=object if isinstance(labels[0], str) else np.int64)
-        estg = GeneticProgrammingClassifier(n_iter=2, pop_size=6, functional_set_names=("add", "sub", "mul"), random_state=seed)
+        estg = GeneticProgrammingClassifier(n_iter=2, pop_size=8, functional_set_names=("add", "sub", "mul"), random_state=seed)
         estg.fit(Xg, yg)
         us = init_symbolic_regression_uniset(X=Xg, functional_set_names=("add", "sub", "mul"))
         by_name = {}
@@ -277,7 +277,7 @@ def main(tier: str) -> int:
     # ---- GP regressor with a stored tree that contains no variable (constant targets, tiny budgets): still one value per row
     from thefittest.base import TerminalNode
     Xk, yk = E.data_regression(n=9, d=2, seed=seed)
-    estk = GeneticProgrammingRegressor(n_iter=2, pop_size=6, functional_set_names=("add", "mul"), random_state=seed)
+    estk = GeneticProgrammingRegressor(n_iter=2, pop_size=8, functional_set_names=("add", "mul"), random_state=seed)
     estk.fit(Xk, yk)
     usk = init_symbolic_regression_uniset(X=Xk, functional_set_names=("add", "mul"))
     addk = next(n for n in usk._functional_set[2] if n._name == "add")
@@ -330,7 +330,7 @@ def main(tier: str) -> int:
                 chk.fail("a reserved optimizer argument is not rejected cleanly", {"estimator": cls.__name__, "dictionary": "weights_optimizer_args", "argument": arg, "error": repr(e)[:160]},
                          {"estimator": cls.__name__, "clause": "reserved"})
     try:
-        GeneticProgrammingRegressor(n_iter=2, pop_size=6, optimizer_args={"elitism": False, "keep_history": True}, random_state=1).fit(Xr, yr)
+        GeneticProgrammingRegressor(n_iter=2, pop_size=8, optimizer_args={"elitism": False, "keep_history": True}, random_state=1).fit(Xr, yr)
         MLPEARegressor(n_iter=2, pop_size=6, hidden_layers=(2,), weights_optimizer_args={"elitism": False, "keep_history": True}, random_state=1).fit(Xr, yr)
         chk.count("non_reserved_accepted")
     except Exception as e:
